@@ -1,4 +1,5 @@
 import GojaModel.C13.ExportTo
+import GojaModel.C13.ExportLemmas
 
 namespace GojaModel.C13
 
@@ -152,5 +153,189 @@ theorem expTo_spec (js : Nat → JFields) (tys : Nat → TyDef) (asU : Nat → N
         simp only [List.length_append, List.length_cons, List.length_nil] at this ⊢
         omega
       · intro _; exact hidx
+
+end GojaModel.C13
+
+namespace GojaModel.C13
+
+/-! ### fuel: more fuel than (objects × destination types) always suffices -/
+
+def TyIn (T : Nat) : Ty → Prop
+  | .iface => True
+  | .named t => t < T
+
+/-- every type mentioned by one of the first T table entries is again one of them -/
+def TyClosed (tys : Nat → TyDef) (T : Nat) : Prop :=
+  ∀ t, t < T → match tys t with
+    | .structPtr fs => ∀ kf ∈ fs, TyIn T kf.2
+    | .mapOf e => TyIn T e
+    | .sliceOf e => TyIn T e
+
+/-- every reference stored in an object with id < N points to an object with id < N -/
+def ClosedJ (js : Nat → JFields) (N : Nat) : Prop :=
+  ∀ id, id < N → ∀ kv ∈ js id, ∀ r, kv.2 = .ref r → r < N
+
+def ValInN (N : Nat) : JVal → Prop
+  | .ref r => r < N
+  | _ => True
+
+theorem lookupField_mem : ∀ {fs : JFields} {k : Nat} {v : JVal}, lookupField fs k = some v → (k, v) ∈ fs
+  | [], _, _, h => by simp [lookupField] at h
+  | (k', v') :: rest, k, v, h => by
+    simp only [lookupField] at h
+    split at h
+    · rename_i hk; cases h; subst hk; simp
+    · exact List.mem_cons_of_mem _ (lookupField_mem h)
+
+theorem TyIn_code {T : Nat} {ty : Ty} (h : TyIn T ty) : ty.code ≤ T := by
+  cases ty with
+  | iface => simp [Ty.code]
+  | named t => simp only [TyIn] at h; simp only [Ty.code]; omega
+
+theorem normTy_in {asU : Nat → Nat → Bool} {id T : Nat} {ty : Ty} (h : TyIn T ty) : TyIn T (normTy asU id ty) := by
+  cases ty with
+  | iface => exact h
+  | named t => simp only [normTy]; split <;> first | trivial | exact h
+
+/-- a duplicate-free list of (object < N, code ≤ T) pairs has at most N·(T+1) entries -/
+theorem nodup_pairs_length {l : List (Nat × Nat)} {N T : Nat} (hn : l.Nodup)
+    (hb : ∀ x ∈ l, x.1 < N ∧ x.2 ≤ T) : l.length ≤ N * (T + 1) := by
+  have hmap : (l.map (fun x => x.1 * (T + 1) + x.2)).Nodup := by
+    unfold List.Nodup
+    rw [List.pairwise_map]
+    refine List.Pairwise.imp_of_mem ?_ hn
+    intro a b ha hb' hne heq
+    apply hne
+    have h1 := hb a ha
+    have h2 := hb b hb'
+    have e1 : a.1 = b.1 := by
+      have ha' : (a.1 * (T + 1) + a.2) / (T + 1) = a.1 := by
+        rw [Nat.mul_comm, Nat.mul_add_div (by omega), Nat.div_eq_of_lt (by omega)]; simp
+      have hb'' : (b.1 * (T + 1) + b.2) / (T + 1) = b.1 := by
+        rw [Nat.mul_comm, Nat.mul_add_div (by omega), Nat.div_eq_of_lt (by omega)]; simp
+      rw [← ha', ← hb'', heq]
+    have e2 : a.2 = b.2 := by rw [e1] at heq; omega
+    exact Prod.ext e1 e2
+  have hsub : l.map (fun x => x.1 * (T + 1) + x.2) ⊆ List.range (N * (T + 1)) := by
+    intro y hy
+    obtain ⟨x, hx, rfl⟩ := List.mem_map.mp hy
+    have := hb x hx
+    rw [List.mem_range]
+    calc x.1 * (T + 1) + x.2 < x.1 * (T + 1) + (T + 1) := by omega
+      _ = (x.1 + 1) * (T + 1) := by rw [Nat.add_mul]; simp
+      _ ≤ N * (T + 1) := Nat.mul_le_mul_right _ (by omega)
+  have := hmap.length_le_of_subset hsub
+  simpa using this
+
+def FuelSpecT (N T f : Nat) (c : TCtx) (v : JVal) (ty : Ty) (r : TCtx × GVal) : Prop :=
+  c.cache.Nodup → (∀ x ∈ c.cache, x.1 < N ∧ x.2 ≤ T) → ValInN N v → TyIn T ty → N * (T + 1) + 1 ≤ f + c.cache.length →
+    r.1.ok = c.ok ∧ (∀ x ∈ r.1.cache, x.1 < N ∧ x.2 ≤ T)
+
+theorem expToFields_fuel {js : Nat → JFields} {tys : Nat → TyDef} {asU : Nat → Nat → Bool} {N T f : Nat}
+    {ev : TCtx → JVal → Ty → TCtx × GVal}
+    (hspec : ∀ c v ty, ValSpecT js tys asU c v ty (ev c v ty)) (hfuel : ∀ c v ty, FuelSpecT N T f c v ty (ev c v ty)) :
+    ∀ (ks : List (Nat × JVal × Ty)) (c : TCtx), c.cache.Nodup → (∀ x ∈ c.cache, x.1 < N ∧ x.2 ≤ T) →
+      (∀ k ∈ ks, ValInN N k.2.1 ∧ TyIn T k.2.2) → N * (T + 1) + 1 ≤ f + c.cache.length →
+      (expToFields ev c ks).1.ok = c.ok ∧ (∀ x ∈ (expToFields ev c ks).1.cache, x.1 < N ∧ x.2 ≤ T)
+  | [], c, _, hb, _, _ => ⟨rfl, hb⟩
+  | (k, v, ty) :: rest, c, hn, hb, hin, hf => by
+    simp only [expToFields]
+    have hk := hin (k, v, ty) (by simp)
+    have h1 := hfuel c v ty hn hb hk.1 hk.2 hf
+    have e1 := (hspec c v ty).1
+    obtain ⟨suf, hsuf⟩ := e1.cachePre
+    have hlen : c.cache.length ≤ (ev c v ty).1.cache.length := by rw [hsuf]; simp
+    have h2 := expToFields_fuel hspec hfuel rest (ev c v ty).1 (e1.nodup hn) h1.2
+      (fun k hk' => hin k (by simp [hk'])) (by omega)
+    exact ⟨h2.1.trans h1.1, h2.2⟩
+
+theorem kidsOf_in {js : Nat → JFields} {tys : Nat → TyDef} {N T id : Nat} {ty : Ty}
+    (hcl : ClosedJ js N) (htc : TyClosed tys T) (hid : id < N) (hty : TyIn T ty) :
+    ∀ k ∈ kidsOf js tys id ty, ValInN N k.2.1 ∧ TyIn T k.2.2 := by
+  have hval : ∀ kv ∈ js id, ValInN N kv.2 := by
+    intro kv hkv
+    cases hv : kv.2 with
+    | ref r => exact hcl id hid kv hkv r hv
+    | prim p => trivial
+    | hole => trivial
+  intro k hk
+  cases ty with
+  | iface =>
+    simp only [kidsOf, List.mem_map] at hk
+    obtain ⟨kv, hkv, rfl⟩ := hk
+    exact ⟨hval kv hkv, trivial⟩
+  | named t =>
+    have ht : t < T := hty
+    have hc := htc t ht
+    simp only [kidsOf] at hk
+    cases hd : tys t with
+    | structPtr fs =>
+      rw [hd] at hk hc
+      simp only [List.mem_filterMap] at hk
+      obtain ⟨kf, hkf, hsome⟩ := hk
+      cases hl : lookupField (js id) kf.1 with
+      | none => simp [hl] at hsome
+      | some v =>
+        simp [hl] at hsome
+        subst hsome
+        exact ⟨hval (kf.1, v) (lookupField_mem hl), hc kf hkf⟩
+    | mapOf e =>
+      rw [hd] at hk hc
+      simp only [List.mem_map] at hk
+      obtain ⟨kv, hkv, rfl⟩ := hk
+      exact ⟨hval kv hkv, hc⟩
+    | sliceOf e =>
+      rw [hd] at hk hc
+      simp only [List.mem_map] at hk
+      obtain ⟨kv, hkv, rfl⟩ := hk
+      exact ⟨hval kv hkv, hc⟩
+
+theorem expTo_fuel (js : Nat → JFields) (tys : Nat → TyDef) (asU : Nat → Nat → Bool) (N T : Nat)
+    (hcl : ClosedJ js N) (htc : TyClosed tys T) :
+    ∀ (fuel : Nat) (c : TCtx) (v : JVal) (ty : Ty), FuelSpecT N T fuel c v ty (expTo js tys asU fuel c v ty)
+  | fuel, c, .prim p, ty => by
+    intro _ hb _ _ _
+    cases fuel <;> exact ⟨rfl, hb⟩
+  | fuel, c, .hole, ty => by
+    intro _ hb _ _ _
+    cases fuel <;> exact ⟨rfl, hb⟩
+  | 0, c, .ref id, ty => by
+    intro hn hb _ _ hf
+    have := nodup_pairs_length hn hb
+    omega
+  | fuel + 1, c, .ref id, ty => by
+    intro hn hb hin hty hf
+    simp only [expTo]
+    cases hfa : findKey (id, (normTy asU id ty).code) c.cache with
+    | some a => exact ⟨rfl, hb⟩
+    | none =>
+      simp only
+      have hid : id < N := hin
+      have hty' : TyIn T (normTy asU id ty) := normTy_in hty
+      have hnd1 : (c.cache ++ [(id, (normTy asU id ty).code)]).Nodup := by
+        rw [List.nodup_append]
+        refine ⟨hn, by simp, ?_⟩
+        intro x hx y hy
+        simp at hy; subst hy
+        intro e; subst e
+        exact findKey_none hfa hx
+      have hb1 : ∀ x ∈ c.cache ++ [(id, (normTy asU id ty).code)], x.1 < N ∧ x.2 ≤ T := by
+        intro x hx
+        rcases List.mem_append.mp hx with hx | hx
+        · exact hb x hx
+        · simp at hx; subst hx; exact ⟨hid, TyIn_code hty'⟩
+      have hfs := expToFields_fuel (N := N) (T := T) (f := fuel) (expTo_spec js tys asU fuel)
+        (expTo_fuel js tys asU N T hcl htc fuel)
+        (kidsOf js tys id (normTy asU id ty)) { c with cache := c.cache ++ [(id, (normTy asU id ty).code)] } hnd1 hb1
+        (kidsOf_in hcl htc hid hty')
+        (by simp only [List.length_append, List.length_cons, List.length_nil]; omega)
+      exact ⟨hfs.1, hfs.2⟩
+
+theorem expTo_root_ok (js : Nat → JFields) (tys : Nat → TyDef) (asU : Nat → Nat → Bool) (N T root fuel : Nat) (ty : Ty)
+    (hcl : ClosedJ js N) (htc : TyClosed tys T) (hr : root < N) (hty : TyIn T ty) (hf : N * (T + 1) + 1 ≤ fuel) :
+    (expTo js tys asU fuel TCtx.empty (.ref root) ty).1.ok = true := by
+  have := expTo_fuel js tys asU N T hcl htc fuel TCtx.empty (.ref root) ty (by simp [TCtx.empty])
+    (by simp [TCtx.empty]) hr hty (by simp [TCtx.empty]; omega)
+  exact this.1
 
 end GojaModel.C13
